@@ -544,3 +544,52 @@ Section Terminates.
       destruct (sfile_list (sfile C render_o yload t (expand_spec f)) (m :: rest) qs'); cbn [bind]; [discriminate | carry IHq].
   Qed.
 End Terminates.
+
+(* ------------------------------------------------------------------ relative includes, continued *)
+Lemma split_dots_head c s : (c =? DOT)%N = false -> exists h tl, split_dots (c :: s) = (c :: h) :: tl.
+Proof.
+  intros Ec. cbn [split_dots]. rewrite Ec. destruct (split_dots s) as [|h tl] eqn:E; [now apply split_dots_nonempty in E|].
+  now exists h, tl.
+Qed.
+
+(* k+1 leading dots followed by a name: k levels above the directory of the including file *)
+Theorem resolve_rel_dots k c s rn : (c =? DOT)%N = false ->
+  resolve_rel rn (VStr (dots (S k) (c :: s))) =
+    match up (S k) rn with
+    | Some d => Ok (d ++ split_dots (c :: s))
+    | None => Err RuntimeError
+    end.
+Proof.
+  intros Ec. unfold resolve_rel. cbn [dots truthy is_nil negb]. rewrite N.eqb_refl.
+  change (DOT :: dots k (c :: s)) with (dots (S k) (c :: s)). rewrite split_dots_dots.
+  destruct (split_dots_head c s Ec) as (h & tl & Eh).
+  rewrite strip_dots_lead by (rewrite Eh; intros r' E; discriminate).
+  destruct (up (S k) rn) as [d|]; cbn [bind fst snd]; [|reflexivity]. now rewrite Eh.
+Qed.
+
+(* nothing but dots is always refused *)
+Theorem resolve_rel_only_dots k rn : resolve_rel rn (VStr (dots (S k) [])) = Err RuntimeError.
+Proof.
+  unfold resolve_rel. cbn [dots truthy is_nil negb]. rewrite N.eqb_refl.
+  change (DOT :: dots k []) with (dots (S k) []). rewrite split_dots_dots. cbn [split_dots].
+  change (repeat [] (S k) ++ [[]]) with (repeat (@nil N) (S k) ++ [[]] ++ []).
+  rewrite app_assoc. change (repeat [] (S k) ++ [[]]) with (repeat (@nil N) (S k) ++ repeat [] 1).
+  rewrite <- repeat_app. rewrite strip_dots_lead by (intros r' E; discriminate).
+  destruct (up (S k + 1) rn); reflexivity.
+Qed.
+
+Lemma removelast_snoc {A} (l : list A) x : removelast (l ++ [x]) = l.
+Proof. apply removelast_last. Qed.
+
+(* the name used for include resolution, minus its last segment, is the directory that holds the file *)
+Theorem resolve_directory C t n rn p : resolve C t n = Ok (rn, p) -> removelast rn = removelast p.
+Proof.
+  unfold resolve. destruct (forallb (seg_ok) n && negb (is_nil n)); [|discriminate].
+  destruct (fs_kind t (removelast n ++ [last n [] ++ suffix C])).
+  - destruct (fs_kind t (n ++ [s_init ++ suffix C])); [discriminate| |]; intros E; injection E as <- <-; now rewrite !removelast_snoc.
+  - destruct (fs_kind t (n ++ [s_init ++ suffix C])); [discriminate| |]; intros E; injection E as <- <-; now rewrite !removelast_snoc.
+  - intros E. injection E as <- <-. now rewrite removelast_snoc.
+Qed.
+
+Lemma up_S k rn : rn <> [] -> up (S k) rn = up k (removelast rn).
+Proof. destruct rn; [congruence | reflexivity]. Qed.
